@@ -39,23 +39,56 @@ Definition C05_valid_decodes_full_statement : Prop :=
     hist_placed pl hist dictm m0 -> Z.of_nat (length D) <= cap ->
     decodes_to (decompress_usingDict fastloop false srcm (Z.of_nat (length B)) 0 cap pl dictm (Z.of_nat (length hist)) m0) D.
 
-(* ---- what is proved so far: safe loop (fastloop = false), no dictionary or contiguous prefix ---- *)
+(* the history as the decoder's memory view sees it *)
+Lemma view_prefix lowPrefix dictm ds m0 (R : list Z) :
+  out_at (get m0) 0 R -> Z.of_nat (length R) <= - lowPrefix -> out_at (vget lowPrefix dictm ds m0) 0 R.
+Proof. intros H Hl j Hj. rewrite vget_hi by lia. apply H. exact Hj. Qed.
+
+Lemma view_ext dictm (hist : list Z) m0 k :
+  out_at (get dictm) (Z.of_nat (length hist)) (rev hist) ->
+  out_at (vget 0 dictm (Z.of_nat (length hist)) m0) 0 (rev (lastn k hist)).
+Proof.
+  intros H. pose proof (out_at_lastn _ _ k _ H) as H'.
+  intros j Hj. unfold vget.
+  assert (E : (0 - 1 - Z.of_nat j <? 0) = true) by lia. rewrite E.
+  rewrite <- (H' j Hj). f_equal. lia.
+Qed.
+
+(* ---- what is proved: safe loop (fastloop = false), every placement ---- *)
+Theorem valid_decodes_safe_loop :
+  forall (pl : placement) (B hist D : list Z) (srcm dictm : mem) (cap : Z) (m0 : mem),
+    strict_valid (lastn (Z.to_nat 65536) hist) B = Some D -> bytes B -> src_at srcm 0 B ->
+    hist_placed pl hist dictm m0 -> Z.of_nat (length D) <= cap ->
+    decodes_to (decompress_usingDict false false srcm (Z.of_nat (length B)) 0 cap pl dictm (Z.of_nat (length hist)) m0) D.
+Proof.
+  intros pl B hist D srcm dictm cap m0 Hv Hb Hs Hh Hcap.
+  unfold decompress_usingDict, decodes_to.
+  pose proof (lastn_length (Z.to_nat 65536) hist) as Hl.
+  destruct (Z.of_nat (length hist) =? 0) eqn:E0.
+  - apply (dec_generic_valid_safe_loop NoDict srcm empty 0 0 0 ltac:(lia) ltac:(lia) B (lastn (Z.to_nat 65536) hist) D cap m0); try assumption.
+    + intros j Hj. rewrite rev_length in Hj. lia.
+    + unfold hroom. cbn [is_extdict]. lia.
+  - destruct pl.
+    + unfold hist_placed in Hh. pose proof (out_at_lastn _ _ (Z.to_nat 65536) _ Hh) as Hh'.
+      destruct (Z.of_nat (length hist) >=? 65536 - 1) eqn:E1.
+      * apply (dec_generic_valid_safe_loop WithPrefix64k srcm empty 0 (-65536) (- Z.of_nat (length hist)) ltac:(lia) ltac:(lia) B (lastn (Z.to_nat 65536) hist) D cap m0); try assumption.
+        -- apply view_prefix; [exact Hh' | rewrite rev_length; lia].
+        -- unfold hroom. cbn [is_extdict]. lia.
+      * apply (dec_generic_valid_safe_loop NoDict srcm empty 0 (- Z.of_nat (length hist)) (- Z.of_nat (length hist)) ltac:(lia) ltac:(lia) B (lastn (Z.to_nat 65536) hist) D cap m0); try assumption.
+        -- apply view_prefix; [exact Hh' | rewrite rev_length; lia].
+        -- unfold hroom. cbn [is_extdict]. lia.
+    + unfold hist_placed in Hh.
+      apply (dec_generic_valid_safe_loop UsingExtDict srcm dictm (Z.of_nat (length hist)) 0 0 ltac:(lia) ltac:(lia) B (lastn (Z.to_nat 65536) hist) D cap m0); try assumption.
+      * apply view_ext. exact Hh.
+      * unfold hroom. cbn [is_extdict]. lia.
+Qed.
+
 Theorem valid_decodes_safe_loop_prefix :
   forall (B hist D : list Z) (srcm dictm : mem) (cap : Z) (m0 : mem),
     strict_valid (lastn (Z.to_nat 65536) hist) B = Some D -> bytes B -> src_at srcm 0 B ->
     hist_placed PPrefix hist dictm m0 -> Z.of_nat (length D) <= cap ->
     decodes_to (decompress_usingDict false false srcm (Z.of_nat (length B)) 0 cap PPrefix dictm (Z.of_nat (length hist)) m0) D.
-Proof.
-  intros B hist D srcm dictm cap m0 Hv Hb Hs Hh Hcap.
-  unfold hist_placed in Hh. unfold decompress_usingDict, decodes_to.
-  pose proof (out_at_lastn _ _ (Z.to_nat 65536) _ Hh) as Hh'.
-  pose proof (lastn_length (Z.to_nat 65536) hist) as Hl.
-  destruct (Z.of_nat (length hist) =? 0) eqn:E0.
-  - apply (dec_generic_valid_safe_loop NoDict srcm empty 0 0 0 ltac:(lia) ltac:(lia) B (lastn (Z.to_nat 65536) hist) D cap m0); try assumption. lia.
-  - destruct (Z.of_nat (length hist) >=? 65536 - 1) eqn:E1.
-    + apply (dec_generic_valid_safe_loop WithPrefix64k srcm empty 0 (-65536) (- Z.of_nat (length hist)) ltac:(lia) ltac:(lia) B (lastn (Z.to_nat 65536) hist) D cap m0); try assumption. lia.
-    + apply (dec_generic_valid_safe_loop NoDict srcm empty 0 (- Z.of_nat (length hist)) (- Z.of_nat (length hist)) ltac:(lia) ltac:(lia) B (lastn (Z.to_nat 65536) hist) D cap m0); try assumption. lia.
-Qed.
+Proof. intros. apply valid_decodes_safe_loop; assumption. Qed.
 
 Theorem valid_decodes_safe_loop_nodict :
   forall (B D : list Z) (srcm : mem) (cap : Z) (m0 : mem),
